@@ -302,10 +302,6 @@ def check(ctx: Ctx, col: Collector, tier: str) -> None:
             col.ok("C08.FS-ENUM", key, repo.loc(rel, n), "enumeration result is sorted before use")
         elif fi.qualname == "_get_nearest_init_dirs":
             col.ok("C08.FS-ENUM", key, repo.loc(rel, n), "result only feeds a minimum-depth selection whose outcome (the set of shallowest directories) is order independent; the caller uses it only when it has exactly one element")
-        elif fi.qualname == "get_api" and n.func.attr in ("glob", "rglob") and isinstance(par, ast.For):
-            col.ok("C08.FS-ENUM", key, repo.loc(rel, n), "order reaches only insertion orders (mypy source list, api.modules): every serialised list is sorted by id (C08.SORTED-SERIALISE), module stubs are written "
-                   "independently of each other, and first-match scans over api.classes are exact-id lookups first (C17.LOOKUP-EXACT); ASSUMPTION recorded: at most one class matches a fuzzy scan")
-            col.assume("file enumeration order in get_api reaches the output only through first-match scans over api.classes; assumed: at most one class matches such a scan (not proved)")
         else:
             col.bad("C08.FS-ENUM", key, repo.loc(rel, n), f"`{ast.unparse(n)[:60]}`", f"{fi.qualname} uses a file-system enumeration whose order is not fixed")
     if len(enum_sites) < 2:
